@@ -63,6 +63,16 @@ pub fn family() -> Vec<(String, Cfg, bool)> {
         c.modes[0].pats.push(CPat::new("a", 3));
     }, true);
     add("one regex twice without lookahead (second can never win)", &|c| c.modes[1].pats.push(CPat::new("b+", 5)), true);
+    add("second mode reuses token type 0 with another lookahead", &|c| c.modes[1].pats[0] = la("b+", 0, false, "a"), true);
+    add("second mode reuses token type 0 with the same lookahead text, other polarity", &|c| c.modes[1].pats[0] = la("b+", 0, false, "b"), true);
+    add("unknown class in the first pattern, syntax error in a later mode", &|c| {
+        c.modes[0].pats[0].pat = "\\pX".into();
+        c.modes[1].pats[1].pat = "a)".into();
+    }, false);
+    add("unknown class, then an unsupported lookahead of a later pattern", &|c| {
+        c.modes[0].pats[0] = CPat::new("[\\p{Foo}a]", 0);
+        c.modes[0].pats[2].la = Some((false, "a$".into()));
+    }, false);
     v.push(("no modes at all".into(), Cfg { modes: vec![] }, true));
     v.push(("one mode without patterns".into(), Cfg { modes: vec![CMode { name: "INITIAL".into(), pats: vec![], transitions: vec![] }] }, true));
     v.push(("unrelated".into(), Cfg::single(vec![CPat::new("c+", 0), CPat::new("[ab]", 1)]), true));
@@ -277,6 +287,62 @@ pub fn run(tier: Tier) -> ! {
             break;
         }
     }
+    // failing builds inside histories: clear, build at most one good member, then a failing member
+    // (which must fail), then any member: the failure must not affect the later build, whether that
+    // one hits or misses the cache
+    let failing: Vec<usize> = (0..n).filter(|&i| !fam[i].2).collect();
+    let mut after_failure = 0usize;
+    'ff: for &f in &failing {
+        for first in std::iter::once(None).chain(good.iter().copied().map(Some)) {
+            for k in 0..n {
+                n_trans += 1;
+                after_failure += 1;
+                let r = catch(|| {
+                    cache_clear();
+                    if let Some(g) = first {
+                        let _ = fam[g].1.build_cached();
+                    }
+                    let failed = fam[f].1.build_cached().is_err();
+                    let built = fam[k].1.build_cached();
+                    (failed, built.is_ok(), built.ok().map(|sc| behaviour(&sc, &ins)))
+                });
+                let history = || {
+                    let mut calls = vec!["scnr::verif::cache_clear()".to_string()];
+                    if let Some(g) = first {
+                        calls.push(format!("build() of {:?}", fam[g].0));
+                    }
+                    calls.push(format!("build() of {:?} (fails)", fam[f].0));
+                    calls.push(format!("build() of {:?}  <-- compared with build_uncached()", fam[k].0));
+                    let cfgs: Vec<serde_json::Value> = first.iter().chain([&f, &k]).map(|&m| json!({"label": fam[m].0, "modes": fam[m].1.to_json()})).collect();
+                    json!({"calls": calls, "configurations": cfgs})
+                };
+                let problem = match r {
+                    Err(p) => Some(format!("panicked: {p}")),
+                    Ok((false, _, _)) => Some("the failing configuration built".to_string()),
+                    Ok((true, ok, beh)) => match (&expected[k], ok, beh) {
+                        (None, false, _) => None,
+                        (None, true, _) => Some("returned a scanner for a failing configuration".to_string()),
+                        (Some(_), false, _) => Some("returned an error; build_uncached() succeeds".to_string()),
+                        (Some(want), true, Some(got)) => {
+                            if want.names != got.names || want.streams != got.streams {
+                                Some(diff(&got, want, &ins))
+                            } else {
+                                None
+                            }
+                        }
+                        (Some(_), true, None) => unreachable!(),
+                    },
+                };
+                if let Some(p) = problem {
+                    let poisoned = p.starts_with("panicked");
+                    viol.add("", || Violation { key: String::new(), summary: format!("after {}the failing build of {:?}, build() of {:?}: {p}", first.map(|g| format!("building {:?} and ", fam[g].0)).unwrap_or_default(), fam[f].0, fam[k].0).chars().take(600).collect(), replay: history() });
+                    if poisoned || viol.total() > 200 {
+                        break 'ff;
+                    }
+                }
+            }
+        }
+    }
     // the simple builder shares the cache with its twin: add_patterns(["a","b"]) before/after the twin
     let twin = fam.iter().position(|f| f.0.starts_with("twin")).unwrap();
     for order in [true, false] {
@@ -369,6 +435,7 @@ pub fn run(tier: Tier) -> ! {
     cov.insert("transitions_where_the_cache_key_set_differs_from_the_model".into(), json!(key_mismatch));
     cov.insert("transitions_where_cached_and_uncached_automata_differ_structurally_(informational)".into(), json!(dump_differs));
     cov.insert("long_history".into(), json!({"distinct_configurations": n_long, "build_calls": long_builds, "shape": "no clear; after every build the first, middle and previous configuration again; all of them at every power of two +-1 below 5000 and at the end forwards and backwards"}));
+    cov.insert("builds_compared_directly_after_a_failing_build".into(), json!(after_failure));
     cov.insert("cache_hits".into(), json!(hits));
     cov.insert("cache_misses".into(), json!(misses));
     cov.insert("failing_builds".into(), json!(fails));
